@@ -1,5 +1,5 @@
 """Property -> rules.  The explanation/assumption texts end up in the evidence files."""
-from .rules import dtype
+from .rules import dtype, evalnodes, executor
 
 TRUSTED_ABSINT = [
     "Python/library semantics of operators, attributes, methods and whitelisted callables are obtained by applying "
@@ -12,7 +12,32 @@ TRUSTED_ABSINT = [
     "(extraction witness); a disagreement ends the run as ANALYSIS-ERROR",
 ]
 
+TRUSTED_STRUCT = [
+    "Python's own semantics of the statements a rule reads (if/for/return, truthiness, `is None`)",
+    "structural rules recognise the shape of the code they are written for; a rewrite into a shape a rule does not "
+    "understand ends the run as ANALYSIS-ERROR (exit 2), never as a verdict",
+]
+
 PROPS = {
+    'C01': {
+        'level': 'other',
+        'explanation': (
+            "Static necessary conditions of row-level evaluation, each decided for every overload / path / argument "
+            "count: NULL-strictness of every operator and function evaluator by null-flow abstract interpretation "
+            "(R-NULLSTRICT, incl. the census of which operator kinds sit on the NULL-aware base); zero-divisor guards "
+            "of all Div/Mod overloads (R-DIVGUARD); the int/decimal promotion table and bool results of the registry "
+            "(R-PROMOTE); each operator kind applies the Python operation of its name to its operands in order "
+            "(R-OPSEM); AND / OR / COALESCE truth tables by exhaustive finite-domain interpretation, valid for every "
+            "arity (R-3VL, product automaton vs. the specification); the non-aggregate scan keeps a row iff the "
+            "condition is absent or true, appends once per row, evaluates every target on that row (R-ROWLOOP, 4 "
+            "gate cases executed abstractly); FROM expression AND-ed with WHERE (R-FROMAND, 4 cases). Does not "
+            "decide the numeric value of an operator application, regular-expression results or overload "
+            "resolution for nested expressions."),
+        'assumptions': TRUSTED_STRUCT + TRUSTED_ABSINT[3:],
+        'quick': [evalnodes.rule_nullstrict, evalnodes.rule_divguard, evalnodes.rule_promote, evalnodes.rule_opsem,
+                  evalnodes.rule_3vl, executor.rule_rowloop, executor.rule_fromand],
+        'thorough': [],
+    },
     'C04': {
         'level': 'other',
         'explanation': (
